@@ -48,6 +48,10 @@ CONSTANTS Hash,        \* entry hashes
                        \* block store or of the provider); no read fails once the final request has been made
           Forget,      \* TRUE (repaired tree): a hash whose fetch failed is kept as missing and queued again with the
                        \* next request; FALSE (pinned): it is recorded as fetched like any other
+          Ghost,       \* hashes whose block no connected peer holds (the provider is offline, or the link is bogus):
+                       \* a fetch of one of them gets no answer
+          Bounded,     \* TRUE (repaired tree): the fetch of one entry ends after a fixed time and counts as failed;
+                       \* FALSE (pinned): it lasts as long as the store lives, with its slot
           Abort,       \* announced heads whose hash does not match their contents: Sync gives the whole announcement up
           NReq,        \* requests are 1..NReq; request NReq is never cancelled
           ReqHeads,    \* request -> sequence of hashes
@@ -102,6 +106,8 @@ Request(q) ==
 
 SetW(w, pc, item) == workers' = [workers EXCEPT ![w] = [req |-> @.req, pc |-> pc, item |-> item]]
 
+\* the buffer of fetched logs is handed to the store only when nothing is queued or being fetched: one fetch that
+\* never completes keeps everything back (hence Bounded)
 IdleWith(tk, ip, qu) == ~(ip > 0 /\ qu # <<>>) /\ \A h \in Hash : tk[h] \notin {"added", "fetching"}
 
 WLive(w) == ~Pinned \/ ctx[workers[w].req] = "live"     \* the context a worker runs under is live
@@ -128,7 +134,7 @@ FetchStart(w) ==
 
 \* the block is obtained (it is local, or a connected peer serves it)
 FetchOk(w) ==
-    /\ w \in W /\ workers[w].pc = "infetch"
+    /\ w \in W /\ workers[w].pc = "infetch" /\ workers[w].item \notin Ghost
     /\ (WLive(w) \/ workers[w].item \in Local)
     /\ IF ~WLive(w)
          THEN SetW(w, "hung", workers[w].item) /\ UNCHANGED buffer        \* FetchHang
@@ -139,6 +145,12 @@ FetchOk(w) ==
 FetchErr(w) ==
     /\ w \in W /\ workers[w].pc = "infetch" /\ WLive(w)
     /\ workers[w].item \in Flaky /\ req[NReq] = "new"
+    /\ SetW(w, "failed", workers[w].item)
+    /\ UNCHANGED <<tasks, queue, inProg, sem, buffer, log, req, ctx, bus, cancels>>
+
+\* nobody answers: the bound on the fetch of one entry expires
+FetchTimeout(w) ==
+    /\ w \in W /\ workers[w].pc = "infetch" /\ workers[w].item \in Ghost /\ Bounded
     /\ SetW(w, "failed", workers[w].item)
     /\ UNCHANGED <<tasks, queue, inProg, sem, buffer, log, req, ctx, bus, cancels>>
 
@@ -200,6 +212,7 @@ Next == \/ StoreLoad
         \/ \E w \in 1..MaxW : FetchOk(w)
         \/ \E w \in 1..MaxW : FetchFail(w)
         \/ \E w \in 1..MaxW : FetchErr(w)
+        \/ \E w \in 1..MaxW : FetchTimeout(w)
         \/ \E w \in 1..MaxW : Finish(w)
         \/ \E q \in Reqs : Return(q)
         \/ \E q \in Reqs : Cancel(q)
@@ -212,9 +225,11 @@ FairSpec == Spec /\ WF_vars(\E w \in 1..MaxW : Acquire(w) \/ AcquireFail(w) \/ F
 (* ------------------------------ properties ------------------------------ *)
 RECURSIVE Reach(_)
 Reach(S) == LET N == S \cup UNION {SeqToSet(Links[h]) : h \in S} IN IF N = S THEN S ELSE Reach(N)
-GoodReach(S) == Reach(S) \ Bad
+GoodReach(S) == Reach(S) \ (Bad \cup Ghost)
 
-Quiet == /\ \A w \in W : workers[w].pc \in {"done", "dead", "hung"}
+\* a fetch nobody answers and nothing bounds is at rest too: it will never do anything
+Stuck(w) == ~Bounded /\ workers[w].item \in Ghost /\ workers[w].pc \in {"dequeued", "infetch"}
+Quiet == /\ \A w \in W : workers[w].pc \in {"done", "dead", "hung"} \/ Stuck(w)
          /\ \A q \in Reqs : req[q] # "new"
          /\ bus = <<>>
 
@@ -226,7 +241,7 @@ NoHang  == Quiet => (\A w \in W : workers[w].pc # "hung") /\ (\A q \in Reqs : re
 \* bookkeeping invariants of the repaired replicator
 QueueMatchesWorkers == ~Pinned => Len(queue) = Cardinality({w \in W : workers[w].pc = "spawned"})
 NoDeadWorkers == ~Pinned => \A w \in W : /\ workers[w].pc \notin {"dead", "hung"}
-                                         /\ (workers[w].pc = "failed" => workers[w].item \in Flaky)
+                                         /\ (workers[w].pc = "failed" => workers[w].item \in Flaky \cup Ghost)
 SemOK == sem <= Conc /\ sem = inProg
 \* liveness form
 Eventually == <>[](GoodReach(SeqToSet(ReqHeads[NReq])) \subseteq log)
